@@ -32,16 +32,18 @@ type Opts struct {
 //
 //	Mode ""      : Kind on Text with Opts, destination pre-state Pre
 //	Mode "agree" : Kind and Kind2 on the same Text and Opts must take the same reading
+//	Mode "fault" : Kind on Text with Opts while the environment fails the operation named by Fault
 //	Mode "seq"   : Calls executed one after the other on ONE CSVConsumer / CSVProducer built with
 //	               Opts; every call must give what it gives on a fresh instance
 type Case struct {
-	Mode  string `json:"mode,omitempty"`
-	Kind  string `json:"kind"`
-	Kind2 string `json:"kind2,omitempty"`
-	Text  string `json:"text"`
-	Opts  Opts   `json:"opts"`
-	Pre   int    `json:"pre,omitempty"`
-	Calls []Call `json:"calls,omitempty"`
+	Mode  string     `json:"mode,omitempty"`
+	Kind  string     `json:"kind"`
+	Kind2 string     `json:"kind2,omitempty"`
+	Text  string     `json:"text"`
+	Opts  Opts       `json:"opts"`
+	Pre   int        `json:"pre,omitempty"`
+	Calls []Call     `json:"calls,omitempty"`
+	Fault *FaultSpec `json:"fault,omitempty"`
 }
 
 // Call is one Consume / Produce call of a shared-instance sequence.
@@ -575,6 +577,9 @@ func checkSeq(c Case) (class, what string) {
 func check(c Case) (class, what string) {
 	if c.Mode == "seq" {
 		return checkSeq(c)
+	}
+	if c.Mode == "fault" {
+		return checkFault(c)
 	}
 	x := newCtx(c.Text)
 	v, ok := x.evalSingle(c.Kind, c.Opts, c.Pre)
